@@ -190,7 +190,7 @@ def run(ctx):
     # to the other symbol, and the default again
     import re
     cand = [(e, m) for e, m in FUNCS if m == "nozero" or m is None or (isinstance(m, int) and m <= 3)]
-    twins = rng.sample(cand, 6 if quick else len(cand))
+    twins = rng.sample(cand, 6 if quick else 14)
     seq_tasks = []
     for e, m in twins:
         other = rng.choice(["s", "x", "T_"])
@@ -199,7 +199,7 @@ def run(ctx):
         subs = [(e, "t", m), (e, other, m_const), (e_o, other, m), (e_o, "t", m_const), (e, "t", m)]
         subs = subs[rng.randint(0, 2):]
         seq_tasks.append({"fn": "c05.impl_seq", "subs": [{"expr": a, "tsym": b, "pseed": rng.randint(1, 10 ** 6)} for a, b, _ in subs], "ms": [c for _, _, c in subs],
-                          "limit": limit, "timeout": (limit * 2 + 60) * len(subs), "fresh": True})
+                          "limit": min(limit, 240), "timeout": (min(limit, 240) * 2 + 60) * len(subs), "fresh": True})
     res = C.run_tasks(tasks + seq_tasks, timeout=(limit * 2 + 60) * 5)
     coq, info, probe_failures, corr_errors = [], [], [], []
     dist = {"by_minimal_order": {}, "outcomes": {}, "timeouts": 0, "probed": 0, "probe_skipped": 0, "time_symbols": {}, "same_interpreter_sequences": len(seq_tasks)}
